@@ -104,3 +104,13 @@ def std_bounds(tier, relist=True):
     if relist:
         b["relistings"] = "one adjacent transposition of the atom listing at a solver-chosen position (generators of S_n; the strata are closed under relabelling); bond listing reversed / rotated; bond orientation none / all / one solver-chosen bond flipped"
     return b
+
+
+def split(j, name, n):
+    """Split a job into n jobs by pinning the structural choice `name` to 0..n-1."""
+    out = []
+    for v in range(n):
+        params = dict(j["params"])
+        params["_pins"] = dict(params.get("_pins", {}), **{name: v})
+        out.append(dict(j, params=params, name=f"{j['name']}/{name}={v}"))
+    return out
